@@ -156,7 +156,7 @@ func (c20) build(src *gen.Source) *Case {
 			tmpl = strings.ReplaceAll(tmpl, "M", src.Pick([]string{"_y1", "X", "HOME"}))
 			op = Op{Op: "expand", Name: src.Pick(c20Ordinary), Value: strings.ReplaceAll(tmpl, "K", src.Pick([]string{"0", "1", "5", "12"}))}
 		default:
-			tmpl := src.Pick([]string{"N=K", "N+=K", "N++", "--N", "1/0", "N N", "N", "(N=K)+1", "N+=M", "N*=M", "N=M"})
+			tmpl := src.Pick([]string{"N=K", "N+=K", "N++", "--N", "1/0", "N N", "N", "(N=K)+1", "N+=M", "N*=M", "N=M", "--N + --N", "N++ + N", "--N * 0 + N++", "++N + N--", "N += N"})
 			tmpl = strings.ReplaceAll(tmpl, "M", src.Pick([]string{"_y1", "X", "HOME"}))
 			op = Op{Op: "eval", Name: src.Pick(c20Ordinary), Value: strings.ReplaceAll(tmpl, "K", src.Pick([]string{"0", "1", "5", "12"}))}
 		}
@@ -301,6 +301,28 @@ func (m *c20Model) arithPlan(expr, name string) (plan string, value string) {
 	}
 	v, _ := m.get(name)
 	cur, curKind := classify(v)
+	// several uses of the variable in one evaluation: the net effect on the store
+	multi := map[string]int{"--N + --N": -2, "N++ + N": 1, "--N * 0 + N++": 0, "++N + N--": 0}
+	for pat, delta := range multi {
+		if expr == strings.ReplaceAll(pat, "N", name) {
+			switch curKind {
+			case "odd":
+				return "skip", ""
+			case "garbage":
+				return "error", ""
+			}
+			return "apply", strconv.Itoa(cur + delta)
+		}
+	}
+	if expr == name+" += "+name {
+		switch curKind {
+		case "odd":
+			return "skip", ""
+		case "garbage":
+			return "error", ""
+		}
+		return "apply", strconv.Itoa(2 * cur)
+	}
 	var op, rhs string
 	switch {
 	case expr == "--"+name:
